@@ -163,6 +163,29 @@ def mk_sketchy(rank, dim, full_k):
     # src is updated.T : shape (k+M, d)
     ctx.oblige(f"{tag}.P4.stacked[:, j<k] = sqrt(b) * V[:, j] * e[j]",
                src.at((j, row)) == (V.at((row, j)) * e.at((j,))) * sym.ssqrt(b))
+    # ... and the remaining rows are the mode-`dim` fibres of the gradient, each exactly once (their ORDER is irrelevant to
+    # G G'; any row-major enumeration of the other axes, in any axis order, is accepted)
+    if rank >= 2:
+      import itertools as _it
+      others = [a for a in range(rank) if a != dim]
+      o = {a: sk(ctx, f"o{a}", dims[a]) for a in others}
+      full_idx = tuple(row if a == dim else o[a] for a in range(rank))
+      ok, first = False, None
+      for perm in _it.permutations(others):
+        pos = 0
+        for a in perm:
+          pos = pos * dims[a] + o[a]
+        claim = src.at((k + pos, row)) == upd.at(full_idx)
+        first = claim if first is None else first
+        if sym.prove(claim):
+          ok = True
+          break
+      ctx.oblige(f"{tag}.P4.stacked rows beyond the sketch are the mode-dim fibres of the gradient (one row per index of the other axes)",
+                 True if ok else first, detail=f"rank={rank} axis={dim}")
+      m_cols = 1
+      for a in others:
+        m_cols = m_cols * dims[a]
+      ctx.oblige(f"{tag}.P4.stacked matrix has k + (number of fibres) rows", src.shape[0] == k + m_cols)
 
   return t
 
